@@ -337,42 +337,49 @@ class Pair:
         rc, out, err = sh([self.d] + self.da, input=text.encode(), timeout=self.timeout)
         return rc, split_output(out), err
 
-    def compare(self, cases):
-        """Returns list of failures: dict(case=k, kind=..., impl=[...], model=[...], detail=...)."""
+    def compare(self, cases, max_restarts=40):
+        """Returns list of failures: dict(case=k, kind=..., impl=[...], model=[...], detail=...).
+        A crash / sanitizer abort / timeout of the harness is attributed to the case being executed; the run is
+        restarted behind it (iteratively, at most `max_restarts` times; whatever is left after that is not judged)."""
         fails = []
         rc_m, mo, merr = self.run_model(cases)
         if rc_m != 0:
             raise RuntimeError("Lean driver failed (rc=%s): %s" % (rc_m, merr[:2000]))
-        rc_i, io, ierr = self.run_impl(cases)
-        crashed_at = None
-        if rc_i != 0:
-            # the last case with any output (or the first without) is where the real code died
-            done = [k for k in range(len(cases)) if k in io and len(io[k]) >= len(cases[k])]
-            crashed_at = (max(done) + 1) if done else 0
-            if crashed_at >= len(cases):
-                crashed_at = len(cases) - 1
-        for k, c in enumerate(cases):
-            il, ml = io.get(k), mo.get(k, [])
-            if crashed_at is not None and k == crashed_at:
-                fails.append(dict(case=k, kind="crash", impl=il or [], model=ml,
-                                  detail=(sanitizer_summary(ierr) or ("rc=%s" % rc_i)) ,
-                                  stderr=ierr[-3000:]))
+        base = 0
+        restarts = 0
+        while base < len(cases):
+            chunk = cases[base:]
+            rc_i, io, ierr = self.run_impl(chunk)
+            crashed_at = None
+            if rc_i != 0:
+                done = [k for k in range(len(chunk)) if k in io and len(io[k]) >= len(chunk[k])]
+                crashed_at = (max(done) + 1) if done else 0
+                if crashed_at >= len(chunk):
+                    crashed_at = len(chunk) - 1
+            stop = len(chunk) if crashed_at is None else crashed_at + 1
+            for k in range(stop):
+                c = chunk[k]
+                il, ml = io.get(k), mo.get(base + k, [])
+                if crashed_at is not None and k == crashed_at:
+                    fails.append(dict(case=base + k, kind="crash", impl=il or [], model=ml,
+                                      detail=(sanitizer_summary(ierr) or ("rc=%s" % rc_i)),
+                                      stderr=ierr[-3000:]))
+                    break
+                if il is None:
+                    continue
+                if il != ml:
+                    j = next((j for j in range(min(len(il), len(ml))) if il[j] != ml[j]), min(len(il), len(ml)))
+                    fails.append(dict(case=base + k, kind="mismatch", impl=il, model=ml, first_diff=j,
+                                      detail="op %r: impl=%r model=%r" % (
+                                          c[j] if j < len(c) else None,
+                                          il[j] if j < len(il) else None,
+                                          ml[j] if j < len(ml) else None)))
+            if crashed_at is None:
                 break
-            if il is None:
-                continue
-            if il != ml:
-                j = next((j for j in range(min(len(il), len(ml))) if il[j] != ml[j]), min(len(il), len(ml)))
-                fails.append(dict(case=k, kind="mismatch", impl=il, model=ml, first_diff=j,
-                                  detail="op %r: impl=%r model=%r" % (
-                                      c[j] if j < len(c) else None,
-                                      il[j] if j < len(il) else None,
-                                      ml[j] if j < len(ml) else None)))
-        if crashed_at is not None and crashed_at + 1 < len(cases):
-            # continue after the crashing case
-            rest = self.compare(cases[crashed_at + 1:])
-            for f in rest:
-                f["case"] += crashed_at + 1
-            fails.extend(rest)
+            base += crashed_at + 1
+            restarts += 1
+            if restarts >= max_restarts:
+                break
         return fails
 
     def fails_one(self, case):
